@@ -53,6 +53,7 @@ class C09(scen.WorldProp):
                 "Wheatley.C09.look_to_forgets_early",
                 "Wheatley.C09.first_row_arms",
                 "Wheatley.C09.waits_as_long_as_it_takes",
+                "Wheatley.C09.setting_keeps_waiting",
                 "Wheatley.C09.keep_going_never_waits"]
     level_text = ("theorems: while a user-controlled bell is in the expected set of the stroke being rung the wait "
                   "loop only sleeps (no strike, no progress); expect_bell puts every not-yet-heard human bell of the "
